@@ -672,6 +672,23 @@ _BLOCK_WORDS = {'{', '}', '<eof>', 'versioninfo', 'visgroups', 'visgroup', 'view
                 'offset_normals', 'alphas', 'triangle_tags', 'allowed_verts', 'multiblend', 'alphablend', 'multiblend_color_0',
                 'multiblend_color_1', 'multiblend_color_2', 'multiblend_color_3', 'cameras', 'camera', 'cordons', 'cordon', 'box',
                 'quickhide', 'point_data'}
+_KNOWN_KEYS: set = set()
+
+
+def _known_keys() -> set:
+    """Literal keys the exporters write (from the translator); anything else in a key position is user text."""
+    if not _KNOWN_KEYS:
+        try:
+            from translate import c06_vmf
+            for _, _, k, pref in c06_vmf.analyse()['written']:
+                if k:
+                    _KNOWN_KEYS.add(re.sub(r'\d+', 'N', k) + ('N' if pref else ''))
+        except Exception:
+            pass
+        _KNOWN_KEYS.update({'id', 'classname', 'rowN', 'replaceN', 'replaceNN'})
+    return _KNOWN_KEYS
+
+
 _LINE = re.compile(r'^\s*"((?:[^"\\]|\\.)*)" "')
 
 
@@ -703,7 +720,7 @@ def text_diff_class(t1: str, t2: str) -> tuple[str, dict]:
         if m:
             k = m.group(1)
             k = re.sub(r'\d+', 'N', k)
-            return k if re.fullmatch(r'[A-Za-z_N]+', k) else '<key>'
+            return k if k.casefold() in _known_keys() else '<key>'
         s = line.strip()
         return s if s in _BLOCK_WORDS else '<text>'
     # the class names the innermost two blocks; 'hidden' wrappers are dropped so that one cause gives one key
